@@ -319,4 +319,4 @@ def run(ctx: vlib.Ctx):
                 ctx.failures.append({"case": case, "why": fl["why"], "why_class": "tool:" + fl["why_class"]})
     ctx.assumptions = ["CPython recursion limit and memory are runtime: block nesting beyond the documented cap of 100 is outside the statement",
                        "the timing clause is judged on a deterministic cost (executed line events), wall time is not used",
-                       "lexer progress/fuel theorems are proved (Props/C20); parser fuel sufficiency is an open proof target backed by the correspondence"]
+                       "proved for every input: lexer closure / progress / no hang (Props/C20), parser closure and parser fuel adequacy = no hang (Props/C20parser); the timing clause has no cost model in Lean and is decided by the deterministic-cost scaling families"]
